@@ -18,6 +18,8 @@ pub struct MsgPlan {
     pub use_default: bool,
     /// build through `as_mut_bytes()` + `assume_init()` instead of `new_in_place()`
     pub manual_init: bool,
+    /// what the finished value reads back as in the planner's (pattern-filled) scratch buffer
+    pub expect_val: Val,
     pub tweaks: Vec<u32>,
     pub len: usize,
     pub pad_start: usize,
@@ -115,6 +117,11 @@ pub fn make_plan<M: ZooMsg + ?Sized>(d: &mut Decider, stats: &mut Stats, nspec: 
     // up to 600 so that u8 length / offset types reach and cross their maximum (255)
     let extras = [0usize, M::ALIGN, 8, 20, 40, 100, 250, 600];
     let extra = extras[d.weighted(St::Cfg, &[4, 4, 6, 8, 8, 6, 2, 1])];
+    // one run in 400: buffers beyond 64 KiB, so that 16-bit length / offset types reach their
+    // maximum (few messages only; such a run costs milliseconds instead of microseconds)
+    let huge = d.chance(St::Cfg, 1, 400);
+    let extra = if huge { 70_000 } else { extra };
+    let nspec = if huge { NSpec::UpTo(2) } else { nspec };
     let max_send = base + extra;
     let n_msgs = match nspec {
         // mostly short sequences; one run in eight a long one (many windows worth of stream)
@@ -150,16 +157,16 @@ pub fn make_plan<M: ZooMsg + ?Sized>(d: &mut Decider, stats: &mut Stats, nspec: 
     let mut anomalies: Vec<(Val, usize)> = Vec::new();
     for _ in 0..n_msgs {
         scratch_store[..cap].fill(0xA5);
-        let scale = [2usize, 8, 40, 260, 700][d.weighted(St::Msgs, &[6, 8, 6, 2, 1])];
+        let scale = if huge && d.chance(St::Msgs, 2, 3) { 66_000 } else { [2usize, 8, 40, 260, 700][d.weighted(St::Msgs, &[6, 8, 6, 2, 1])] };
         let val = M::gen(&mut Gen::new(d, St::Msgs, scale));
         let use_default = d.chance(St::Msgs, 1, 12);
         // fit: largest clamp that emplaces and whose size() <= max_send
         let mut chosen: Option<(MsgPlan, usize)> = None;
         if use_default {
-            let mp = MsgPlan { val: Val::I(0), use_default: true, manual_init: false, tweaks: vec![], len: 0, pad_start: 0 };
+            let mp = MsgPlan { val: Val::I(0), use_default: true, manual_init: false, expect_val: Val::I(0), tweaks: vec![], len: 0, pad_start: 0 };
             if let Ok(Ok((size, true, v))) = guarded(|| build_in::<M>(&mut scratch_store[..cap], &mp)) {
                 if size <= max_send {
-                    chosen = Some((MsgPlan { val: v, ..mp }, size));
+                    chosen = Some((MsgPlan { val: v.clone(), expect_val: v, ..mp }, size));
                 }
             }
         }
@@ -168,13 +175,13 @@ pub fn make_plan<M: ZooMsg + ?Sized>(d: &mut Decider, stats: &mut Stats, nspec: 
             let mut n = top;
             loop {
                 let v = if n == top { val.clone() } else { val.clamp(n) };
-                let mp = MsgPlan { val: v, use_default: false, manual_init: false, tweaks: vec![], len: 0, pad_start: 0 };
+                let mp = MsgPlan { val: v, use_default: false, manual_init: false, expect_val: Val::I(0), tweaks: vec![], len: 0, pad_start: 0 };
                 match guarded(|| build_in::<M>(&mut scratch_store[..cap], &mp)) {
-                    Ok(Ok((size, true, _))) if size <= max_send => {
+                    Ok(Ok((size, true, back))) if size <= max_send => {
                         if n < top {
                             stats[P::value_clamped_to_fit as usize] += 1;
                         }
-                        chosen = Some((mp, size));
+                        chosen = Some((MsgPlan { expect_val: back, ..mp }, size));
                         break;
                     }
                     Ok(Ok((size, false, _))) => {
@@ -197,9 +204,9 @@ pub fn make_plan<M: ZooMsg + ?Sized>(d: &mut Decider, stats: &mut Stats, nspec: 
             Some(x) => x,
             None => {
                 // fall back to the default value (always fits by construction of max_send)
-                let mp = MsgPlan { val: Val::I(0), use_default: true, manual_init: false, tweaks: vec![], len: 0, pad_start: 0 };
+                let mp = MsgPlan { val: Val::I(0), use_default: true, manual_init: false, expect_val: Val::I(0), tweaks: vec![], len: 0, pad_start: 0 };
                 match guarded(|| build_in::<M>(&mut scratch_store[..cap], &mp)) {
-                    Ok(Ok((size, true, v))) => (MsgPlan { val: v, ..mp }, size),
+                    Ok(Ok((size, true, v))) => (MsgPlan { val: v.clone(), expect_val: v, ..mp }, size),
                     _ => continue,
                 }
             }
@@ -233,9 +240,9 @@ pub fn make_plan<M: ZooMsg + ?Sized>(d: &mut Decider, stats: &mut Stats, nspec: 
                     // confirm that replaying the recorded decisions reproduces the same value
                     let mp2 = MsgPlan { tweaks: tw, ..mp.clone() };
                     scratch_store[..cap].fill(0xA5);
-                    if let Ok(Ok((s2, true, _))) = guarded(|| build_in::<M>(&mut scratch_store[..cap], &mp2)) {
+                    if let Ok(Ok((s2, true, back2))) = guarded(|| build_in::<M>(&mut scratch_store[..cap], &mp2)) {
                         if s2 == s {
-                            mp = mp2;
+                            mp = MsgPlan { expect_val: back2, ..mp2 };
                             size = s;
                             stats[P::tweaks_applied as usize] += 1;
                         }
@@ -457,7 +464,17 @@ pub fn receiver_blocking<M: ZooMsg + ?Sized>(sh: Shared, plan: Arc<Plan>) {
                 }
                 Ok(Err(RecvError::Closed)) => {
                     outcome = RecvOutcome::Closed;
-                    stop = true;
+                    // Closed right after a *transient* read error (no end of stream seen): the
+                    // application may retry, and nothing may be lost that way
+                    let retry = {
+                        let w = lock(&sh);
+                        let r = w.recvs.last().unwrap();
+                        r.saw_err_hard && !r.saw_eof && w.persistent_r.is_none()
+                    };
+                    retries += 1;
+                    if !(retry && retries <= 8) {
+                        stop = true;
+                    }
                 }
                 Ok(Err(RecvError::Parse(e))) => {
                     outcome = RecvOutcome::Parse(format!("{:?}@{}", e.kind, e.pos));
@@ -646,7 +663,15 @@ pub async fn receiver_async<M: ZooMsg + ?Sized>(sh: Shared, plan: Arc<Plan>) {
             },
             Err(RecvError::Closed) => {
                 outcome = RecvOutcome::Closed;
-                stop = true;
+                let retry = {
+                    let w = lock(&sh);
+                    let r = w.recvs.last().unwrap();
+                    r.saw_err_hard && !r.saw_eof && w.persistent_r.is_none()
+                };
+                retries += 1;
+                if !(retry && retries <= 8) {
+                    stop = true;
+                }
             }
             Err(RecvError::Parse(e)) => {
                 outcome = RecvOutcome::Parse(format!("{:?}@{}", e.kind, e.pos));
